@@ -767,10 +767,35 @@ class Gen:
             args.append(Node('group', 'bracket', children=[text(str(r.randint(1, 9)))]))
             if r.random() < 0.3:
                 args.append(self.group_arg('bracket', c, depth))
-        body = Node('group', 'brace', children=self.seq(c.inside(brtop=False), depth - 1, r.randint(1, 4),
-                                                        force='beginend'))
+        if r.random() < 0.25 and depth > 1:
+            # a list written inside a definition: \begin / \end are plain commands there, an \item still owns what
+            # follows it up to the next \item, the \end command or the closing brace
+            kids = self.special_list(c.inside(brtop=False), depth - 1)
+        else:
+            kids = self.seq(c.inside(brtop=False), depth - 1, r.randint(1, 4), force='beginend')
+        body = Node('group', 'brace', children=kids)
         args.append(body)
         return Node('cmd', 'special', r.choice(SPECIAL), args, seps=self.seps_for(args))
+
+    def special_list(self, cx, depth):
+        r = self.rng
+        name = r.choice(LIST_ENVS)
+
+        def be(which):
+            a = [Node('group', 'brace', children=[text(name)])]
+            return Node('cmd', 'beginend', which, a, seps=self.seps_for(a, first_adjacent=True))
+        # the contents of an \item are read in the ordinary (non-math, non-special) mode whatever surrounds the item
+        ci = Cx(False, False, False, False, True)
+        kids = [be('begin')] if r.random() < 0.8 else []
+        for _ in range(r.randint(1, 3)):
+            iargs = []
+            if r.random() < 0.3:
+                iargs = [self.group_arg('bracket', cx, min(depth, 2))]
+            kids.append(Node('item', None, 'item', iargs, self.seq(ci, depth - 1, r.randint(1, 3)),
+                             seps=self.seps_for(iargs)))
+        if r.random() < 0.8:
+            kids.append(be('end'))
+        return kids
 
     def beginend(self, cx, depth):
         r = self.rng
@@ -906,7 +931,7 @@ class Gen:
                     table += [(w['env'], 'env'), (w['list'], 'list'), (w['menv'], 'menv')]
                     if cx.verb_ok:
                         table += [(w['verb'], 'verb')]
-            if cx.special:
+            if cx.special and not cx.itemtop:       # a plain \end directly in an item's contents would end the item
                 table += [(w['cmd'], 'beginend')]
         else:
             table += [(w['cmd'] // 2, 'cmd0')]
